@@ -47,6 +47,19 @@ def gen_affinity_scenario(rng):
     return {"router": router, "queue": rng.choice(["d", "p"]), "n": n, "disc": "none", "hash": {}, "rl": "", "ops": ops}
 
 
+def gen_spread_scenario(rng):
+    """round robin (and the other routers for contrast): the scenario opens with n dispatches on the idle pool"""
+    s = gen_scenario(rng, router=rng.choice(["rr", "rr", "rr", "q", "cu"]), style=rng.choice(["plain", "resize", "faulty"]))
+    n = rng.choice([1, 2, 3, 4, 5])
+    s["n"], s["rl"] = n, ""
+    if rng.random() < 0.8:
+        s["disc"] = "none"
+    base = 1000
+    head = [["d", base + i, rng.randrange(0, 40), "-", rng.choice([0, 1])] for i in range(n)]
+    s["ops"] = head + s["ops"][:70]
+    return s
+
+
 def classify(chk, s, r, an, findings):
     kind = an[0] if isinstance(an, tuple) else an
     if "F3" in findings:
@@ -72,7 +85,9 @@ def run(chk):
     quick = chk.tier == "quick"
     ok_proofs = chk.proofs()
     factor = 1 if ok_proofs else 5
-    build = cargo_build(["eng_factory"])
+    # RV_FACTORY_BIN_DIR: use an eng_factory binary built elsewhere (mutation experiments against a scratch worktree)
+    alt = os.environ.get("RV_FACTORY_BIN_DIR")
+    build = {"ok": True, "dir": alt} if alt else cargo_build(["eng_factory"])
     if not build["ok"]:
         ok, log = repo_builds_without_hooks()
         if not ok:
@@ -92,6 +107,7 @@ def run(chk):
         scns += [gen_affinity_scenario(chk.rng) for _ in range(n)]
         # round robin / custom focus
         scns += [gen_scenario(chk.rng, router=chk.rng.choice(["rr", "cu", "q", "sq"])) for _ in range(n // 2)]
+        scns += [gen_spread_scenario(chk.rng) for _ in range(n // 2)]
     res, htbl = evaluate("C14", build, scns)
 
     distinct = set()
